@@ -14,3 +14,16 @@ def get_plain_apdu_contract(self, key, scf, address_fields_raw, address_type, fr
 
 
 SECURE_DATA_STUBS = [(SecureData, "get_plain_apdu", get_plain_apdu_contract)]
+
+
+def init_from_plain_apdu_contract(key, apdu, scf, sequence_number, address_fields_raw, address_type, frame_format, tpci):
+    """SecureData.init_from_plain_apdu as the state machine sees it: a SecureData carrying the given
+    sequence number and some secured APDU and MAC (their content is C15/C19)."""
+    return SecureData(
+        sequence_number_bytes=sequence_number.to_bytes(6, "big"),
+        secured_apdu=nondet_bytes(255),
+        message_authentication_code=nondet_bytes(4),
+    )
+
+
+SECURE_DATA_STUBS.append((SecureData, "init_from_plain_apdu", staticmethod(init_from_plain_apdu_contract)))
